@@ -434,3 +434,267 @@ def obligation(name: str, body: str):
     rc, out = lean_file(f)
     ok = rc == 0 and "error" not in out and "sorry" not in out
     return ok, out[-600:]
+
+
+# ------------------------------------------------------------------ C17 Compute_TPR_FPR regenerated as a Lean term
+
+STATS = "causationentropy/core/stats.py"
+
+_TPRFPR_PROOF = """  intro n ps
+  first
+    | rfl
+    | (simp only [Generated.tprFpr, CE.Stats.tprFpr, CE.Stats.falseNeg, CE.Stats.falsePos, CE.Stats.totalPos]; rfl)
+    | (simp only [Generated.tprFpr, CE.Stats.tprFpr, CE.Stats.falseNeg, CE.Stats.falsePos, CE.Stats.totalPos,
+                  sub_pos, sub_neg, gt_iff_lt, ge_iff_le]
+       refine Prod.ext ?_ ?_ <;> dsimp only <;> split_ifs <;>
+         first
+           | rfl
+           | (exfalso; linarith)
+           | (exfalso; nlinarith)
+           | ring1
+           | (have hne := ne_of_gt ‹_ < _›; field_simp; done)
+           | (have hne := ne_of_gt ‹_ < _›; field_simp; ring1)
+           | (congr 1; ring1))
+"""
+
+
+def tprfpr_obligation_source():
+    """`Compute_TPR_FPR(A, B)` of the CURRENT source as a Lean function of the side length and the flattened list of
+    entry pairs, with the obligation that it equals the model's `CE.Stats.tprFpr` for ALL n and ALL pair lists."""
+    from pyexpr import Sym, Untranslatable as U
+    fn = _funcs(_parse(STATS)).get("Compute_TPR_FPR")
+    if fn is None:
+        raise Untranslatable("Compute_TPR_FPR not found")
+    params = [a.arg for a in fn.args.args]
+    if len(params) != 2 or fn.args.defaults or fn.args.kwonlyargs or fn.args.vararg or fn.args.kwarg:
+        raise Untranslatable(f"Compute_TPR_FPR takes {params}")
+    try:
+        out = Sym({params[0]: ("elem", "p.1"), params[1]: ("elem", "p.2")}, size_names=params).run(fn.body)
+    except U as e:
+        raise Untranslatable(str(e))
+    if out is None or len(out) != 2 or any(k != "scal" for k, _ in out):
+        raise Untranslatable("does not return a pair of scalars")
+    term = f"({out[0][1]}, {out[1][1]})"
+    return ("import CEModel.Stats\nimport Mathlib.Tactic.Ring\nimport Mathlib.Tactic.FieldSimp\nimport Mathlib.Tactic.Linarith\n"
+            "/-! GENERATED from /repo by harness/gen_tables.py -- do not edit. -/\n"
+            f"def Generated.tprFpr (n : Nat) (ps : List (Rat × Rat)) : Rat × Rat :=\n  {term}\n"
+            "example : ∀ (n : Nat) (ps : List (Rat × Rat)), Generated.tprFpr n ps = CE.Stats.tprFpr n ps := by\n" + _TPRFPR_PROOF)
+
+
+# ------------------------------------------------------------------ C18 Poisson rate line regenerated as a Lean term
+
+def _innermost_body(fn, depth=2):
+    """the body of the `depth`-fold nested `for v in range(...)` loops of a function, with the loop variables"""
+    loops, body = [], fn.body
+    for _ in range(depth):
+        fors = [st for st in body if isinstance(st, ast.For)]
+        if len(fors) != 1 or not (isinstance(fors[0].target, ast.Name) and isinstance(fors[0].iter, ast.Call)
+                                  and isinstance(fors[0].iter.func, ast.Name) and fors[0].iter.func.id == "range") or fors[0].orelse:
+            raise Untranslatable("loop nest not recognised")
+        loops.append(fors[0])
+        body = fors[0].body
+    return loops, body
+
+
+def poisson_rate_obligation_source():
+    """The rate handed to `rng.poisson` inside the double loop of `poisson_coupled_oscillators`, as a Lean function of
+    (lambda_base, coupling_strength, s) with s = sum_j A[j, i] * X[t-1, j] (recognised only in exactly that orientation),
+    and the obligation that the model's `poissonRate` with the floor *read off the source* is that function."""
+    from pyexpr import Sym, Untranslatable as U
+    fn = _funcs(_parse(SYN)).get("poisson_coupled_oscillators")
+    if fn is None:
+        raise Untranslatable("poisson_coupled_oscillators not found")
+    params = [a.arg for a in fn.args.args]
+    if "lambda_base" not in params or "coupling_strength" not in params:
+        raise Untranslatable(f"parameters {params}")
+    # A must be the plain adjacency (no transpose), X the output array
+    adj = [st.targets[0].id for st in fn.body if isinstance(st, ast.Assign) and len(st.targets) == 1 and isinstance(st.targets[0], ast.Name)
+           and ast.unparse(st.value) in ("nx.to_numpy_array(G)", "networkx.to_numpy_array(G)")]
+    rets = [st for st in fn.body if isinstance(st, ast.Return)]
+    if len(adj) != 1 or len(rets) != 1 or not (isinstance(rets[0].value, ast.Tuple) and len(rets[0].value.elts) == 2 and all(isinstance(e, ast.Name) for e in rets[0].value.elts)):
+        raise Untranslatable("adjacency / return not recognised")
+    A, X = adj[0], rets[0].value.elts[0].id
+    if rets[0].value.elts[1].id != A or sum(1 for n_ in ast.walk(fn) if isinstance(n_, ast.Assign) and any(isinstance(t, ast.Name) and t.id == A for t in n_.targets)) != 1:
+        raise Untranslatable("adjacency is reassigned")
+    (lt, li), body = _innermost_body(fn)
+    t, i = lt.target.id, li.target.id
+    if ast.unparse(lt.iter) not in ("range(1, T)",) or ast.unparse(li.iter) not in ("range(n)",):
+        raise Untranslatable("loop ranges")
+    col, prev = f"{A}[:, {i}]", (f"{X}[{t} - 1, :]", f"{X}[{t} - 1]")
+    forms = set()
+    for pv in prev:
+        forms |= {f"np.sum({col} * {pv})", f"np.sum({pv} * {col})", f"np.dot({col}, {pv})", f"np.dot({pv}, {col})", f"{col} @ {pv}", f"{pv} @ {col}",
+                  f"({col} * {pv}).sum()", f"({pv} * {col}).sum()"}
+
+    def atoms(node, sym):
+        if isinstance(node, (ast.Call, ast.BinOp)) and ast.unparse(node) in forms:
+            return ("scal", "s")
+        return None
+
+    last = body[-1]
+    if not (isinstance(last, ast.Assign) and ast.unparse(last.targets[0]) == f"{X}[{t}, {i}]" and isinstance(last.value, ast.Call)
+            and isinstance(last.value.func, ast.Attribute) and last.value.func.attr == "poisson" and len(last.value.args) == 1 and not last.value.keywords):
+        raise Untranslatable("the draw is not X[t, i] = rng.poisson(<rate>)")
+    try:
+        sym = Sym({"lambda_base": ("scal", "lam"), "coupling_strength": ("scal", "c")}, atoms=atoms)
+        if sym.run(body[:-1]) is not None:
+            raise Untranslatable("return inside the loop")
+        kind, term = sym.ev(last.value.args[0])
+    except U as e:
+        raise Untranslatable(str(e))
+    if kind != "scal":
+        raise Untranslatable("rate is not a scalar")
+    return ("import CEModel.Synthetic\nimport Mathlib.Tactic.Ring\nimport Mathlib.Tactic.Linarith\nimport Mathlib.Tactic.SplitIfs\nimport Mathlib.Order.Lattice\nimport Mathlib.Algebra.Order.Field.Rat\n"
+            "/-! GENERATED from /repo by harness/gen_tables.py -- do not edit. -/\n"
+            f"def Generated.rate (lam c s : Rat) : Rat :=\n  {term}\n"
+            "def Generated.floor : Rat := " + _arith(ast.Constant(value=0.1), []) + "\n"
+            "example : ∀ (lam c : Rat) (A : CE.Syn.Mat) (x : CE.Syn.Vec) (i : Nat),\n"
+            "    CE.Syn.poissonRate Generated.floor lam c A x i\n"
+            "      = Generated.rate lam c (CE.Syn.total (List.zipWith (· * ·) (A.map (fun row => row.getD i 0)) x)) := by\n"
+            "  intro lam c A x i\n"
+            "  first\n    | rfl\n"
+            "    | (simp only [CE.Syn.poissonRate, Generated.rate, Generated.floor]; done)\n"
+            "    | (simp only [CE.Syn.poissonRate, Generated.rate, Generated.floor]\n"
+            "       first\n         | rfl\n         | (congr 1; ring1)\n         | (rw [max_comm]; first | rfl | (congr 1; ring1))\n"
+            "         | (simp only [max_def, min_def]; split_ifs <;> first | rfl | ring1 | linarith | (exfalso; linarith)))\n")
+
+
+# ------------------------------------------------------------------ C19 update step of logisic_dynamics regenerated as a Lean term
+
+class _Lin:
+    """matrix expression as a formal integer combination of the identity and the row-normalised matrix W (or its transpose)"""
+
+    def __init__(self, co):
+        self.co = {k: v for k, v in co.items() if v != 0}
+
+    def T(self):
+        return _Lin({(m, (not tr) if m == "W" else tr): v for (m, tr), v in self.co.items()})
+
+    def add(self, o, sign=1):
+        co = dict(self.co)
+        for k, v in o.co.items():
+            co[k] = co.get(k, 0) + sign * v
+        return _Lin(co)
+
+
+_ROWNORM = [
+    "{R} = np.sum({A}, axis=1)",
+    "{M} = {R} > 0",
+    "{A}[{M}] = {A}[{M}] / {R}[{M}, np.newaxis]",
+]
+
+
+def logistic_step_obligation_source():
+    """Component i of the update `XY[i] = ...` of `logisic_dynamics`, as a Lean function of (sigma, f_i, d) with
+    f = logistic_map(previous row) and d = (W f)_i, W the row-normalised adjacency -- obtained by symbolic matrix algebra
+    over the CURRENT source (transposes tracked) -- with the obligation that the model's `stepRow` is that function."""
+    fn = _funcs(_parse(SYN)).get("logisic_dynamics")
+    if fn is None:
+        raise Untranslatable("logisic_dynamics not found")
+    mats, seen_norm, Aname = {}, 0, None
+    names = {}
+    loop = None
+    for st in fn.body:
+        src = ast.unparse(st)
+        if isinstance(st, ast.Expr) and isinstance(st.value, ast.Constant):
+            continue
+        if isinstance(st, ast.For):
+            loop = st
+            continue
+        if isinstance(st, ast.Return):
+            continue
+        if isinstance(st, ast.Assign) and len(st.targets) == 1 and isinstance(st.targets[0], ast.Name):
+            tgt, val = st.targets[0].id, st.value
+            vs = ast.unparse(val)
+            if vs in ("nx.to_numpy_array(G)",):
+                Aname = tgt; mats[tgt] = "ADJ"; continue
+            if Aname and src == _ROWNORM[0].format(R=tgt, A=Aname) and mats.get(Aname) == "ADJ":
+                names["R"] = tgt; seen_norm = 1; continue
+            if seen_norm == 1 and src == _ROWNORM[1].format(M=tgt, R=names["R"]):
+                names["M"] = tgt; seen_norm = 2; continue
+            m = _mat_expr(val, mats)
+            if m is not None:
+                mats[tgt] = m; continue
+            if any(isinstance(n_, ast.Name) and n_.id in mats for n_ in ast.walk(val)):
+                raise Untranslatable(f"matrix statement outside the subset: {src[:60]}")
+            continue            # rng, G, XY = zeros, ... (no matrix involved)
+        if seen_norm == 2 and src == _ROWNORM[2].format(A=Aname, M=names["M"], R=names["R"]):
+            mats[Aname] = _Lin({("W", False): 1}); seen_norm = 3; continue
+        if isinstance(st, ast.Assign) and isinstance(st.targets[0], ast.Subscript):
+            if any(isinstance(n_, ast.Name) and n_.id in mats for n_ in ast.walk(st)):
+                raise Untranslatable(f"matrix statement outside the subset: {src[:60]}")
+            continue
+        raise Untranslatable(f"statement outside the subset: {src[:60]}")
+    if seen_norm != 3 or loop is None or len(loop.body) != 1:
+        raise Untranslatable("row normalisation / time loop not recognised")
+    it = loop.target.id if isinstance(loop.target, ast.Name) else None
+    up = loop.body[0]
+    if not (it and isinstance(up, ast.Assign) and ast.unparse(up.targets[0]) in (f"XY[{it}, :]", f"XY[{it}]")):
+        raise Untranslatable("update statement")
+    fsrc = {f"logistic_map(XY[{it} - 1, :], r)", f"logistic_map(XY[{it} - 1], r)"}
+
+    def vec(node):
+        """component i of a vector expression as a Lean term in sigma, fi, d"""
+        s = ast.unparse(node)
+        if s in fsrc:
+            return "fi"
+        if isinstance(node, ast.Attribute) and node.attr == "T":
+            return vec(node.value)          # transpose of a 1-D array is the array
+        if isinstance(node, ast.BinOp) and isinstance(node.op, (ast.Add, ast.Sub)):
+            return f"({vec(node.left)} {'+' if isinstance(node.op, ast.Add) else '-'} {vec(node.right)})"
+        if isinstance(node, ast.BinOp) and isinstance(node.op, ast.Mult):
+            for a, b in ((node.left, node.right), (node.right, node.left)):
+                if isinstance(a, ast.Name) and a.id == "sigma":
+                    return f"(sigma * {vec(b)})"
+                if isinstance(a, ast.Constant) and isinstance(a.value, (int, float)):
+                    return f"({_arith(a, [])} * {vec(b)})"
+        if isinstance(node, ast.UnaryOp) and isinstance(node.op, ast.USub):
+            return f"(-{vec(node.operand)})"
+        prod = None
+        if isinstance(node, ast.Call) and ast.unparse(node.func) in ("np.dot", "np.matmul") and len(node.args) == 2 and not node.keywords:
+            prod = node.args
+        if isinstance(node, ast.BinOp) and isinstance(node.op, ast.MatMult):
+            prod = (node.left, node.right)
+        if isinstance(node, ast.Call) and isinstance(node.func, ast.Attribute) and node.func.attr == "dot" and len(node.args) == 1:
+            prod = (node.func.value, node.args[0])
+        if prod is not None:
+            M, v = _mat_expr(prod[0], mats), prod[1]
+            if M is None or vec(v) != "fi":
+                raise Untranslatable(f"product outside the subset: {s[:60]}")
+            parts = []
+            for (m, tr), co in sorted(M.co.items()):
+                if m == "I":
+                    parts.append(f"(({co} : Rat) * fi)")
+                elif m == "W" and not tr:
+                    parts.append(f"(({co} : Rat) * d)")
+                else:
+                    raise Untranslatable("coupling through the transposed normalised matrix")
+            return "(" + " + ".join(parts or ["(0 : Rat)"]) + ")"
+        raise Untranslatable(f"vector expression outside the subset: {s[:60]}")
+
+    term = vec(up.value)
+    return ("import CEModel.Synthetic\nimport Mathlib.Tactic.Ring\n/-! GENERATED from /repo by harness/gen_tables.py -- do not edit. -/\n"
+            f"def Generated.stepComp (sigma fi d : Rat) : Rat :=\n  {term}\n"
+            "example : ∀ (sigma fi : Rat) (row f : CE.Syn.Vec), CE.Syn.stepRow sigma fi row f = Generated.stepComp sigma fi (CE.Syn.dot row f) := by\n"
+            "  intro sigma fi row f; simp only [CE.Syn.stepRow, Generated.stepComp]; ring1\n")
+
+
+def _mat_expr(node, mats):
+    """symbolic value of a matrix expression (None when `node` is not one)"""
+    if isinstance(node, ast.Name) and isinstance(mats.get(node.id), _Lin):
+        return mats[node.id]
+    if isinstance(node, ast.Attribute) and node.attr == "T":
+        m = _mat_expr(node.value, mats)
+        return m.T() if m is not None else None
+    if isinstance(node, ast.Call) and ast.unparse(node.func) in ("np.eye", "np.identity") and len(node.args) == 1 and not node.keywords:
+        return _Lin({("I", False): 1})
+    if isinstance(node, ast.Call) and ast.unparse(node.func) in ("np.array", "np.asarray", "np.ascontiguousarray") and len(node.args) == 1 and not node.keywords:
+        return _mat_expr(node.args[0], mats)
+    if isinstance(node, ast.Call) and isinstance(node.func, ast.Attribute) and node.func.attr in ("copy", "transpose") and not node.args:
+        m = _mat_expr(node.func.value, mats)
+        return None if m is None else (m.T() if node.func.attr == "transpose" else m)
+    if isinstance(node, ast.BinOp) and isinstance(node.op, (ast.Add, ast.Sub)):
+        a, b = _mat_expr(node.left, mats), _mat_expr(node.right, mats)
+        if a is not None and b is not None:
+            return a.add(b, 1 if isinstance(node.op, ast.Add) else -1)
+    return None
